@@ -1,6 +1,6 @@
 SPECIFICATION Spec
 CONSTANT Cfg <- MCCfg12
-CONSTANT Rots = {0, 1}
+CONSTANT Rots = {0, 1, 2, 3}
 CONSTANT Shuffle = TRUE
 CONSTANT Family = "cuts"
 CONSTANT Extra = 1
